@@ -238,7 +238,13 @@ PROPS = {
                    "shortest_processing_time_score", "first_come_first_served_score", "BaseSolver.__call__",
                    "Dispatcher.available_operations", "Dispatcher.available_operations$raw",
                    "Dispatcher.unscheduled_operations", "Dispatcher.unscheduled_operations$raw", "Dispatcher.dispatch",
-                   "Schedule.is_complete"],
+                   "Schedule.is_complete",
+                   # the rules rely on the cache invariant, which every cached query body has to keep (a rule may be
+                   # asked after any other query in the same state)
+                   "Dispatcher.uncompleted_operations$raw", "Dispatcher.ongoing_operations", "Dispatcher.ongoing_operations$raw",
+                   "Dispatcher.scheduled_operations", "Dispatcher.scheduled_operations$raw",
+                   "Dispatcher.current_time", "Dispatcher.current_time$raw",
+                   "Dispatcher.raw_ready_operations", "Dispatcher.raw_ready_operations$raw"],
         lemmas=["reach-implies-feasible", "complete-iff-every-job-finished"],
         tierb=True,
         trusted=[T_OBSERVERS,
@@ -262,12 +268,16 @@ PROPS = {
                      "unscheduled_operations() computes, per job, the sum of the durations of its unscheduled operations: "
                      "ghost prefix sums; every unscheduled operation sits at exactly one index of the list); "
                      "score_based_rule(f).rule returns an available operation with a HIGHEST score in the list f returned, "
-                     "for ANY scoring function f; the tie-breaker rule returns an element of available_operations() and "
-                     "never raises (no empty max, no index error) for ANY scoring functions; SPT/FCFS scoring functions "
+                     "for ANY scoring function f; the tie-breaker rule returns an element of available_operations(), "
+                     "never raises (no empty max, no index error) and its selection is LEXICOGRAPHICALLY BEST under the "
+                     "score lists the functions returned, for ANY scoring functions (ghost: the list each function returned, "
+                     "the best score of each round, the round in which each available operation dropped out; rounds that "
+                     "were not evaluated cannot matter because the selected operation is then the only survivor); "
+                     "SPT/FCFS scoring functions "
                      "give each available operation's job the documented score; BaseSolver.__call__ stores a "
                      "non-negative elapsed_time and the class name of the solver",
-                     "bounded only: that MOR (uses uncompleted_operations) and tie-breaker selections are MAXIMAL "
-                     "(lexicographically best) under their criterion, equality of the direct and the observer-based MWKR rule (numpy), "
+                     "bounded only: that the MOR selection (counts uncompleted_operations per job) is maximal, "
+                     "equality of the direct and the observer-based MWKR rule (numpy), "
                      "the factories and the 5 x 2 x filter configuration matrix, machine choosers"],
     ),
     "C11": dict(
